@@ -80,6 +80,32 @@ def clean_env(extra=None):
     return env
 
 
+class CpuBudgetExceeded(BaseException):
+    pass
+
+
+class cpu_budget:
+    """Bounded progress measured in CPU time of this process (not wall clock, so machine load does not
+    matter): code that normally needs a millisecond and is still running after `seconds` of CPU time does
+    not terminate.  Raises CpuBudgetExceeded inside the monitored code."""
+
+    def __init__(self, seconds):
+        self.seconds = seconds
+
+    def _fire(self, signum, frame):
+        raise CpuBudgetExceeded("no result after %.1f s of CPU time" % self.seconds)
+
+    def __enter__(self):
+        self._old = signal.signal(signal.SIGPROF, self._fire)
+        signal.setitimer(signal.ITIMER_PROF, self.seconds)
+        return self
+
+    def __exit__(self, *a):
+        signal.setitimer(signal.ITIMER_PROF, 0)
+        signal.signal(signal.SIGPROF, self._old)
+        return False
+
+
 class Scratch:
     """One scratch root per run, outside /repo and /verif, removed on exit."""
 
@@ -182,10 +208,27 @@ def _worker(fn, cases, idxs, out_path, timeout):
             out.flush()
 
 
-def parallel_map(fn, cases, nproc=None, timeout=120, progress=None):
+def parallel_map(fn, cases, nproc=None, timeout=120, progress=None, pilot=48):
     """Apply fn to every case, each inside its own forked process (clean interpreter state,
     a crash or hang is contained).  Returns list of (kind, value) in case order, kind in
-    ok|exc|died|timeout|lost."""
+    ok|exc|died|timeout|lost|skipped.
+
+    A pilot batch runs first: when most of it hits the wall-clock watchdog (a change that makes the
+    code under test hang everywhere) the remaining cases are skipped - the run is inconclusive either
+    way and must not take hours to say so."""
+    n = len(cases)
+    if n == 0:
+        return []
+    if pilot and n > 3 * pilot:
+        head = _parallel_map(fn, cases[:pilot], nproc, timeout)
+        bad = sum(1 for k, _ in head if k in ("timeout", "died", "lost"))
+        if bad * 2 > len(head):
+            return head + [("skipped", None)] * (n - pilot)
+        return head + _parallel_map(fn, cases[pilot:], nproc, timeout)
+    return _parallel_map(fn, cases, nproc, timeout)
+
+
+def _parallel_map(fn, cases, nproc=None, timeout=120):
     n = len(cases)
     if n == 0:
         return []
